@@ -31,7 +31,7 @@ class Decomp(Suite):
         for n in gen.sizes(tier, widen):
             for _ in range(reps):
                 shape = gen.pick_shape(rng, k); k += 1
-                t = gen.tree_case(rng, n, shape, numbering=rng.choice(["sorted", "root0"]), coords="lattice")
+                t = gen.tree_case(rng, n, shape, numbering=rng.choice(["sorted", "root0"]), coords="lattice", types=rng.choice(["mixed", "anyroot"]))
                 out.append({"class": t["class"], "tree": t})
                 if t["n"] >= 3 and rng.random() < 0.6:
                     d = rng.choice(["sort", "copy-edit", f"redirect:{rng.randrange(1, t['n'])}"])
@@ -41,8 +41,9 @@ class Decomp(Suite):
                      [-1, 2, 0, 2], [-1, 0, 1, 1, 3, 3]):
             t = gen.tree_case(rng, len(pids), "single")
             n = len(pids)
-            t = {"class": "named", "n": n, "pids": pids, "types": [1] + [3] * (n - 1), "xyz": [[float(i), 0.0, 0.0] for i in range(n)], "r": [1.0] * n}
-            out.append({"class": "named", "tree": t})
+            for rt in (1, 3):     # soma-typed root, and a neurite fragment whose root is an ordinary node
+                t = {"class": "named", "n": n, "pids": pids, "types": [rt] + [3] * (n - 1), "xyz": [[float(i), 0.0, 0.0] for i in range(n)], "r": [1.0] * n}
+                out.append({"class": "named" + ("" if rt == 1 else "/nonsoma-root"), "tree": t})
         return out
 
     def run(self, case):
